@@ -60,6 +60,9 @@ class Sandbox:
             os.makedirs(os.path.join(self.l3, s, "d"))
             self._file(os.path.join(self.l3, s, "a"), "source %s/a\n" % s)
             self._file(os.path.join(self.l3, s, "d", "a"), "source %s/d/a\n" % s)
+        os.makedirs(os.path.join(self.l3, "r", "a"))          # producer r: the FILE is called d, the DIRECTORY a
+        self._file(os.path.join(self.l3, "r", "d"), "source r/d\n")
+        self._file(os.path.join(self.l3, "r", "a", "a"), "source r/a/a\n")
         self._file(os.path.join(self.l3, "wf.yaml"), "components:\n- name: hello\n  command:\n    executable: echo\n    arguments: hi\n")
         # the archive of the `stage` family: a single file member d/a
         self.make_tar([{"k": "file", "n": ["d", "a"], "t": []}], os.path.join(self.arch, "stage.tar"))
@@ -241,7 +244,7 @@ def show(mode, inp, sb=None):
         return "[" + ", ".join("%s %s%s" % (m["k"], nm(m["n"]), " -> " + nm(m["t"]) if m["k"] in ("sym", "hard") else "") for m in inp) + "]"
     if mode == "manifest":
         return "{" + ", ".join("%s: %s:%s" % (nm(m["n"]), m["t"], m["k"]) for m in inp) + "}"
-    return "[" + ", ".join("%s:%s" % ({"pa": "p/a", "qa": "q/a", "pd": "p/d", "qd": "q/d", "arch": "archive{d/a}"}[m["t"]], m["k"]) for m in inp) + "]"
+    return "[" + ", ".join("%s:%s" % ({"pa": "p/a", "qa": "q/a", "pd": "p/d", "qd": "q/d", "rd": "r/d (a file)", "ra": "r/a (a directory)", "arch": "archive{d/a}"}[m["t"]], m["k"]) for m in inp) + "]"
 
 
 # =====================================================================================================================
@@ -278,7 +281,7 @@ def real_archive(sb, case, env):
     return raised, diff(before, after), sb.tree(sb.target), before, after
 
 
-SRC = {"pa": ("p", "a"), "qa": ("q", "a"), "pd": ("p", "d"), "qd": ("q", "d")}
+SRC = {"pa": ("p", "a"), "qa": ("q", "a"), "pd": ("p", "d"), "qd": ("q", "d"), "rd": ("r", "d"), "ra": ("r", "a")}
 
 
 def real_stage(sb, case, env):
@@ -339,7 +342,7 @@ def real_stagein(sb, case, env, n):
     sb.ninst = getattr(sb, "ninst", 0) + 1
     loc = os.path.join(sb.root, "l2", "inst%d" % sb.ninst)
     os.makedirs(loc)
-    flowir = {"components": [realenv.simple_component("p", 0), realenv.simple_component("q", 0),
+    flowir = {"components": [realenv.simple_component("p", 0), realenv.simple_component("q", 0), realenv.simple_component("r", 0),
                              realenv.simple_component("c", 1, args=" ".join(refs),
                                                       references=refs)]}
     import experiment.model.storage as S
@@ -359,6 +362,10 @@ def real_stagein(sb, case, env, n):
         sb._file(os.path.join(wd, "d", "a"), "source %s/d/a\n" % s)
         if s == "p":
             shutil.copy(os.path.join(sb.arch, "stage.tar"), os.path.join(wd, "stage.tar"))
+    wd = g.nodes["stage0.r"]["componentInstance"].directory
+    os.makedirs(os.path.join(wd, "a"))
+    sb._file(os.path.join(wd, "d"), "source r/d\n")
+    sb._file(os.path.join(wd, "a", "a"), "source r/a/a\n")
     job = g.nodes["stage1.c"]["componentInstance"]
     wdir = os.path.realpath(job.directory)
     before = sb.listing(skip=wdir)
